@@ -38,6 +38,9 @@ template<class T> static void run(Rng& g, int n) {
 		  if (!(std::min(d1, d2) <= tol * 8)) fail("quat_cast" + ty, kind == 4 ? "near-tie" : "value", qs(q), "+-q", qs(p)); }
 		{ auto q2 = unitq<T>(g, it % 3); count("product" + ty); M3 R2 = qmat(q2.x, q2.y, q2.z, q2.w); if (!(mdiff(glm::mat3_cast(q * q2), mul(R, R2)) <= tol * 4)) fail("product" + ty, "value", qs(q) + "*" + qs(q2), "M(q1)M(q2)", "differs"); }
 		{ count("inverse" + ty); auto i = q * glm::inverse(q); auto cj = glm::conjugate(q); auto iv = glm::inverse(q); if (!(fabsl((LD)i.w - 1) <= tol && fabsl((LD)i.x) <= tol && fabsl((LD)i.y) <= tol && fabsl((LD)i.z) <= tol && fabsl((LD)cj.x - iv.x) <= tol && fabsl((LD)cj.w - iv.w) <= tol)) fail("inverse" + ty, "value", qs(q), "identity", qs(i)); }
+		if (it < 4) { count("axis" + ty); glm::qua<T> id = glm::qua<T>::wxyz((T)(it & 1 ? -1 : 1), (T)0, (T)0, (T)(it & 2 ? std::numeric_limits<T>::denorm_min() : 0)); auto ax = glm::axis(id); LD n2 = (LD)ax.x * ax.x + (LD)ax.y * ax.y + (LD)ax.z * ax.z;   // w = +-1 exactly: any unit axis, never NaN
+			if (!(fabsl(n2 - 1) <= 64 * eps)) fail("axis" + ty, "w = +-1", qs(id), "a unit vector", str((double)ax.x) + "," + str((double)ax.y) + "," + str((double)ax.z));
+			auto r = glm::angleAxis(glm::angle(id), ax); if (!(mdiff(glm::mat3_cast(r), qmat(id.x, id.y, id.z, id.w)) <= 4096 * eps)) fail("angleAxis" + ty, "w = +-1", qs(id), "same rotation", qs(r)); }
 		if (kind != 2) { count("angleAxis" + ty); auto r = glm::angleAxis(glm::angle(q), glm::axis(q)); if (!(mdiff(glm::mat3_cast(r), R) <= 4096 * eps)) fail("angleAxis" + ty, "roundtrip", qs(q), "same rotation", qs(r)); }
 		{ count("eulerAngles" + ty); auto e = glm::eulerAngles(q); auto r = glm::qua<T>(e); LD sy = 2 * ((LD)q.w * q.y - (LD)q.x * q.z); LD cy = sqrtl(std::max((LD)0, 1 - sy * sy)); LD t = 4096 * eps / std::max(cy, 64 * sqrtl(eps)) + (kind == 3 ? 64 * sqrtl(eps) : 0); if (!(mdiff(glm::mat3_cast(r), R) <= t)) fail("eulerAngles" + ty, kind == 3 ? "gimbal-pole" : "roundtrip", qs(q), "quat(eulerAngles(q)) same rotation", qs(r) + " euler=(" + str((double)e.x) + "," + str((double)e.y) + "," + str((double)e.z) + ")");
 		  M3 E = mul(mul(rot(2, e.z), rot(1, e.y)), rot(0, e.x)); if (!(mdiff(glm::mat3_cast(q), E) <= t)) fail("eulerAngles" + ty, kind == 3 ? "gimbal-pole-matrix" : "matrix", qs(q), "Rz(roll)Ry(yaw)Rx(pitch)", "differs"); }
